@@ -1,4 +1,5 @@
 import WindVerif.Proofs.LineFile
+import WindVerif.Proofs.RecFileM
 /-!
 # C12 — Mutable line files act as a list of lines; save writes it; source untouched
 
@@ -87,5 +88,133 @@ theorem getInt_spec (f : LF) (ls : List Str) (h : Good f ls) (i : Int) :
 /-- non-vacuity -/
 example : ((⟨"a\nb\n".toList, [.off 0, .off 2], 0, false, false⟩ : LF).setItem (-1) "X".toList).toOption.map (·.lines) =
     some [.off 0, .str "X".toList] := by decide
+
+end WindVerif.C12
+
+/-!
+## The record variant (`BaseMutableRecordFile`, model `Model/RecFile.lean`, proofs `Proofs/RecFileM.lean`)
+
+A mutable record file presents `list(f)` = `load` of every position (`records`; `none` = that position raises).  `f[i] = r`,
+`insert`, `append` store the text `r.save()`; the presented list changes as the Python list does (the new element is
+`load(save(r))`, which is `r` for a format with a round trip); `del` / `pop` / `reverse` as on a list; `save` copies
+untouched source lines verbatim and writes `save(r).rstrip("\n")` for edited positions.  Valid for ANY record format.
+-/
+namespace WindVerif.C12
+open WindVerif.RecFile
+
+/-- a position that still holds `src i` is written as source line `i` verbatim -/
+theorem save_untouched (f : RecFile) (p i : Nat) (l ending : RecFile.Str) (hp : f.slots[p]? = some (.src i))
+    (hl : f.source[i]? = some l) (hnl : '\n' ∉ l) :
+    f.lineAt p = some l ∧ (f.saveLines ending)[p]? = some (l ++ ending) := by
+  first | exact WindVerif.RecFile.save_untouched .. | (apply WindVerif.RecFile.save_untouched <;> assumption)
+
+/-- a position written with record `r` is written as `strip (save r)` (`strip` = `rstrip("\n")`) -/
+theorem save_edited {R : Type} (F : Fmt R) (f f' : RecFile) (i : Int) (p : Nat) (r : R) (ending : RecFile.Str)
+    (hi : Py.index f.slots.length i = some p) (hs : f.setRec F i r = .ok f') :
+    f'.lineAt p = some (strip (F.save r)) ∧ (f'.saveLines ending)[p]? = some (strip (F.save r) ++ ending) := by
+  first | exact WindVerif.RecFile.save_edited .. | (apply WindVerif.RecFile.save_edited <;> assumption)
+
+/-- … and so is an inserted record, at the position Python's `list.insert` chooses -/
+theorem save_inserted {R : Type} (F : Fmt R) (f : RecFile) (i : Int) (r : R) (ending : RecFile.Str) :
+    (f.insertRec F i r).lineAt (Py.insertPos f.slots.length i) = some (strip (F.save r)) ∧
+    ((f.insertRec F i r).saveLines ending)[Py.insertPos f.slots.length i]? = some (strip (F.save r) ++ ending) := by
+  first | exact WindVerif.RecFile.save_inserted .. | (apply WindVerif.RecFile.save_inserted <;> assumption)
+
+/-- `f[i]`: the presented record; `IndexError` outside the range (negative indices as Python); a line that does not load
+raises -/
+theorem rec_get_spec {R : Type} (F : Fmt R) (f : RecFile) (i : Int) :
+    f.getRec F i = match Py.index (f.records F).length i with
+      | none => .error .indexError
+      | some p => match (f.records F)[p]? with
+        | some (some r) => .ok r
+        | _ => .error .loadError := by
+  first | exact WindVerif.RecFile.getRec_spec .. | (apply WindVerif.RecFile.getRec_spec <;> assumption)
+
+theorem rec_set_spec {R : Type} (F : Fmt R) (f : RecFile) (i : Int) (r : R) :
+    match Py.index (f.records F).length i with
+    | some p => ∃ f', f.setRec F i r = .ok f' ∧ f'.records F = (f.records F).set p (F.load (F.save r)) ∧
+        f'.source = f.source
+    | none => f.setRec F i r = .error .indexError := by
+  first | exact WindVerif.RecFile.records_setRec .. | (apply WindVerif.RecFile.records_setRec <;> assumption)
+
+theorem rec_insert_spec {R : Type} (F : Fmt R) (f : RecFile) (i : Int) (r : R) :
+    (f.insertRec F i r).records F =
+      Py.insertAt (f.records F) (Py.insertPos (f.records F).length i) (F.load (F.save r)) ∧
+    (f.insertRec F i r).source = f.source := by
+  first | exact WindVerif.RecFile.records_insertRec .. | (apply WindVerif.RecFile.records_insertRec <;> assumption)
+
+theorem rec_append_spec {R : Type} (F : Fmt R) (f : RecFile) (r : R) :
+    (f.appendRec F r).records F = f.records F ++ [F.load (F.save r)] ∧ (f.appendRec F r).source = f.source := by
+  first | exact WindVerif.RecFile.records_appendRec .. | (apply WindVerif.RecFile.records_appendRec <;> assumption)
+
+theorem rec_del_spec {R : Type} (F : Fmt R) (f : RecFile) (i : Int) :
+    match Py.index (f.records F).length i with
+    | some p => ∃ f', f.delRec i = .ok f' ∧ f'.records F = (f.records F).eraseIdx p ∧ f'.source = f.source
+    | none => f.delRec i = .error .indexError := by
+  first | exact WindVerif.RecFile.records_delRec .. | (apply WindVerif.RecFile.records_delRec <;> assumption)
+
+/-- `pop(i)` returns the record and removes the position; a position that does not load raises and stays -/
+theorem rec_pop_spec {R : Type} (F : Fmt R) (f : RecFile) (i : Int) :
+    match Py.index (f.records F).length i with
+    | some p => (match (f.records F)[p]? with
+      | some (some r) => ∃ f', f.popRec F i = .ok (r, f') ∧ f'.records F = (f.records F).eraseIdx p ∧
+          f'.source = f.source
+      | _ => f.popRec F i = .error .loadError)
+    | none => f.popRec F i = .error .indexError := by
+  first | exact WindVerif.RecFile.records_popRec .. | (apply WindVerif.RecFile.records_popRec <;> assumption)
+
+/-- `reverse()` (the swap loop of `MutableSequence`) presents the reversed list and does not raise, when every position
+loads and the records survive `save` + `load` -/
+theorem rec_reverse_spec {R : Type} (F : Fmt R) (f : RecFile) (rs : List R) (hrs : f.records F = rs.map some)
+    (hrt : ∀ r ∈ rs, F.load (F.save r) = some r) :
+    ∃ f', f.reverse F = (f', none) ∧ f'.records F = (f.records F).reverse ∧ f'.source = f.source := by
+  first | exact WindVerif.RecFile.records_reverse .. | (apply WindVerif.RecFile.records_reverse <;> assumption)
+
+/-- LIST SEMANTICS: for a format with an in-memory round trip on the domain `P`, a file in the invariant of a history of
+edits (`Inv`: stored texts are `save r` with `P r`) whose source lines load into the domain, and any operation with
+records of the domain: the presented list afterwards is the Python list operation applied to the presented list before -/
+theorem records_list_semantics {R : Type} (F : Fmt R) (P : R → Prop) (hmem : F.OkMem P) (f : RecFile)
+    (hf : Inv F P f) (hl : Loads F P f.source) (op : Op R) (hop : ∀ r ∈ op.recs, P r) :
+    (f.step F op).records F = op.onList (f.records F) := by
+  first | exact WindVerif.RecFile.records_list_semantics .. | (apply WindVerif.RecFile.records_list_semantics <;> assumption)
+
+/-- … for every history, starting from the freshly opened file -/
+theorem records_history {R : Type} (F : Fmt R) (P : R → Prop) (hmem : F.OkMem P) (source : List RecFile.Str)
+    (hsrc : ∀ l ∈ source, '\n' ∉ l) (hl : Loads F P source) (ops : List (Op R))
+    (hops : ∀ op ∈ ops, ∀ r ∈ op.recs, P r) :
+    ((RecFile.open source).run F ops).records F = ops.foldl (fun l op => op.onList l) (source.map F.load) := by
+  rw [← WindVerif.RecFile.records_open F source]
+  exact WindVerif.RecFile.records_run F P hmem ops _ (WindVerif.RecFile.inv_open F P source hsrc) hl hops
+
+/-- non-vacuity: a csv file of three lines (one field needlessly quoted), `f[1] = …`, `insert(0, …)`, `reverse()`:
+the stored slots, the presented records and the saved text -/
+example :
+    let F := csvFmt ',' 2
+    let f := (RecFile.open ["a,\"b\"".toList, "c,d".toList, "e,\"f,g\"".toList]).run F
+      [.set 1 ["x".toList, "y,z".toList], .insert 0 ["i".toList, []], .reverse]
+    f.slots = [.txt "e,\"f,g\"\r\n".toList, .txt "x,\"y,z\"\r\n".toList, .txt "a,b\r\n".toList, .txt "i,\r\n".toList] ∧
+    f.records F = [some ["e".toList, "f,g".toList], some ["x".toList, "y,z".toList], some ["a".toList, "b".toList],
+      some ["i".toList, []]] ∧
+    f.saveText ['\n'] = "e,\"f,g\"\r\nx,\"y,z\"\r\na,b\r\ni,\r\n".toList := by
+  decide
+
+/-- an untouched line is copied verbatim (the needless quotes stay), an edited one is re-serialised -/
+example :
+    let F := csvFmt ',' 2
+    let f := (RecFile.open ["a,\"b\"".toList, "c,d".toList]).run F [.set 1 ["x".toList, "y".toList]]
+    f.saveText ['\n'] = "a,\"b\"\nx,y\r\n".toList := by
+  decide
+
+/-- the hypotheses of `save_untouched` / `save_edited` / `rec_reverse_spec` on that file: position 0 still points to source
+line 0, which carries no line break; `f[-1] = …` succeeds at position 1; every position loads and survives `save` + `load` -/
+example :
+    let F := csvFmt ',' 2
+    let f := RecFile.open ["a,\"b\"".toList, "c,d".toList]
+    f.slots[0]? = some (.src 0) ∧ f.source[0]? = some "a,\"b\"".toList ∧ '\n' ∉ "a,\"b\"".toList ∧
+    Py.index f.slots.length (-1) = some 1 ∧
+    (f.setRec F (-1) ["x".toList, "y".toList]).toOption = some ⟨f.source, [.src 0, .txt "x,y\r\n".toList]⟩ ∧
+    f.records F = [["a".toList, "b".toList], ["c".toList, "d".toList]].map some ∧
+    (∀ r ∈ [["a".toList, "b".toList], ["c".toList, "d".toList]], F.load (F.save r) = some r) := by
+  decide
 
 end WindVerif.C12
